@@ -517,7 +517,7 @@ func genBig(t *rapid.T, p h.Pair) h.Pair {
 var prop = h.Prop[Spec]{
 	ID: "C03", Name: "resume",
 	Gen: func(t *rapid.T) Spec {
-		p := h.GenPair(t, h.GenOpts{ManyEdits: true, MaxOld: 4, MaxOps: 5})
+		p := h.GenPair(t, h.GenOpts{ManyEdits: true, MaxOld: 4, MaxOps: 5, ConstCap: 16384})
 		p = genBig(t, p)
 		s := Spec{Pair: p, Comp: genComp(t)}
 		s.Optimize = rapid.IntRange(0, 2).Draw(t, "optimize") == 0
